@@ -211,6 +211,19 @@ def const_family(seed, tier):
         items.append(runner.Item(('c13', 'rand', k), 'string g = "%s"; empty @is_you() { %s string l = "%s"; %s }' % (
             ''.join(esc(b) for b in bs), dump('g'), ''.join(esc(b) for b in reversed(bs)), dump('l')), [], s=80,
             meta={'family': 'const_random'}))
+    # equal value lists at different element sizes in ONE program (tables must not be shared across element types)
+    same = '''const int[] AI = [2, 3, 5]; const byte[] AB = [2, 3, 5]; const int[] BI = [1]; const bool[] BO = [true]; const byte[] BB = [1];
+const int[] CI = [1, 0, 1, 1, 0, 0, 0, 0, 1]; const bool[] CO = [true, false, true, true, false, false, false, false, true]; const byte[] CB = [1, 0, 1, 1, 0, 0, 0, 0, 1];
+int[] MI = [2, 3, 5]; byte[] MB = [2, 3, 5];
+empty @is_you() {
+  const int[] li = [2, 3, 5]; const byte[] lb = [2, 3, 5]; const bool[] lo = [true]; const int[] lj = [1];
+  for (int i = 0; i < 3; i += 1) { write(AI[i]); write(AB[i] is int); write(MI[i]); write(MB[i] is int); write(li[i]); write(lb[i] is int); write(','); }
+  write(BI[0]); write(BO[0]); write(BB[0] is int); write(lo[0]); write(lj[0]); write(',');
+  for (int j = 0; j < 9; j += 1) { write(CI[j]); write(CO[j] is int); write(CB[j] is int); }
+  MB[1] = 9; MI[1] = 300; write(MB[1] is int); write(MI[1]); write(AI[1]); write(AB[1] is int);
+  write("ab"); write(['a', 'b']); const byte[] s2 = "ab" is byte[]; write(s2); string t = "ab"; write(t.length); write(97); write([97, 98][1]);
+}'''
+    items.append(runner.Item(('c13', 'same_values'), same, [], s=200, meta={'family': 'const_same_values'}))
     # constant arrays of every length, every element type, global/local, const/mutable
     lens = list(range(0, 41)) if tier == 'thorough' else [0, 1, 2, 7, 8, 9, 15, 16, 17, 31, 32, 33, 40]
     for n in lens:
@@ -391,6 +404,17 @@ def fault_family(seed, tier):
     for el, val in [('int', '1'), ('byte', "'b'"), ('bool', 'true'), ('string', '"s"')]:
         add('vla_len_' + el, 'empty @is_you(int n) { int before = 3; write(\'a\'); %s a[n]; write(\'b\'); write(a.length); if (n > 0) { a[0] = %s; a[n - 1] = %s; write(a[0]); } write(before); }' % (el, val, val), lens, s=200)
         add('vla_len_expr_' + el, 'int f(int n) { write(\'f\'); return n; }\nempty @is_you(int n) { write(\'a\'); %s a[f(n) * 1]; write(a.length); }' % el, [[-1], [0], [3]], s=200)
+    # the same length guards at wider words: lengths whose BYTE size wraps around the word
+    for w in (3, 4):
+        mm = (1 << (8 * w - 1)) - 1
+        full = 1 << (8 * w)
+        wl = [[-1], [0], [2], [mm // w], [mm // w + 1], [full // w + 1], [full // w + 2], [mm], [-mm - 1], [(full // w) // 2 + 1]]
+        for el, val in [('int', '1'), ('string', '"s"'), ('bool', 'true'), ('byte', "'b'")]:
+            src = 'empty @is_you(int n, int k) { int before = 3; write(\'a\'); %s a[n]; write(\'b\'); write(a.length); if (n > 0) { a[0] = %s; a[k] = %s; write(a[k]); } write(before); }' % (el, val, val)
+            for a in wl:
+                for k in (0, 19):
+                    items.append(runner.Item(('flt', 'vla_len_w%d_%s' % (w, el), a[0], k), src, [str(a[0]), str(k)], w=w, s=20,
+                                             meta={'family': 'fault:vla_len_w%d_%s' % (w, el), 'classifier': {'site': 'vla_len_wide'}}))
     # nonlocal preempt
     np = '''empty !pre(int k) { if (k > 5) { preempt { write('p'); } } write('q'); }
 empty @is_you(int k, int d) {
